@@ -30,6 +30,9 @@ static J gen_planar(Chooser &ch)
       double a0 = a_prev;
       if (i > 0 && ch.chance(30)) a0 = ch.lattice(5, 175, 5); // a kink between segments
       double a1 = ch.chance(45) ? a0 : ch.lattice(5, 175, 5);
+      // 8%: a dip pair that differs in the last digits only (35 vs 35.0000000001, as a script computing dips would write it): an arc
+      // of astronomically large radius, indistinguishable from the straight segment (sagitta L*da/8 below a micrometre)
+      if (a1 == a0 && ch.chance(15)) a1 = a0 + (ch.flip() ? 1 : -1) * ch.pick<double>({1e-13, 3e-12, 1e-10, 2.5e-9, 4e-8});
       s["a0"] = a0; s["a1"] = a1;
       a_prev = a1;
       const double t0 = ch.lattice(20e3, 200e3, 10e3);
@@ -75,7 +78,11 @@ static Result check_planar(const J &c)
   J jsegs = J::arr();
   for (const auto &s : c.at("segments").a)
     {
-      segs.push_back({s.at("L").num(), s.at("a0").num() * DEG, s.at("a1").num() * DEG});
+      // the reference draws a dip pair closer than 1e-9 rad as the straight segment it is to within L*da/8 < 0.1 mm (evaluating the
+      // arc formulas with a radius of 1e14 m and more would only measure cancellation error)
+      const bool nearly_straight = s.at("a0").num() != s.at("a1").num() && std::fabs(s.at("a0").num() - s.at("a1").num()) * DEG < 1e-9;
+      if (nearly_straight) r.classes.push_back("dip pair differing in the last digits");
+      segs.push_back({s.at("L").num(), s.at("a0").num() * DEG, (nearly_straight ? s.at("a0").num() : s.at("a1").num()) * DEG});
       total += s.at("L").num();
       maxthick = std::max(maxthick, std::max(s.at("t0").num(), s.at("t1").num()));
       J js = J::obj();
